@@ -211,6 +211,12 @@ pub struct Observation {
     pub truth2: Vec<(u64, Truth)>,
     pub result2: Option<Result<(), String>>,
     pub crashed_at: Option<u64>,
+    /// Virtual clock (milliseconds since the first step) after each step; index = step number.
+    pub times: Vec<u64>,
+    /// Step at which the first instance's future completed, if it did.
+    pub completed_step: Option<u64>,
+    pub alive_at_end: bool,
+    pub ticks_done: u32,
 }
 
 pub type Checker = fn(&Observation) -> Vec<(String, String)>;
@@ -247,6 +253,9 @@ pub struct AsWorld {
     killed: bool,
     crashed_at: Option<u64>,
     first_result: Option<Result<(), String>>,
+    clock_start: Option<tokio::time::Instant>,
+    times: Vec<u64>,
+    completed_step: Option<u64>,
 }
 
 struct Second {
@@ -369,7 +378,11 @@ fn read_now(r: &mut ByteReader, flag: &Arc<WakeFlag>, max: usize, out: &mut Byte
 impl AsWorld {
     fn log(&mut self, s: String) {
         if self.trace_on {
-            self.trace.push(format!("[{}] {}", self.step, s));
+            let ms = self.clock_start.map(|st| tokio::time::Instant::now().duration_since(st).as_millis()).unwrap_or(0);
+            if std::env::var("PROBE_LIVE").is_ok() {
+                println!("[{} @{}ms] {}", self.step, ms, s);
+            }
+            self.trace.push(format!("[{} @{}ms] {}", self.step, ms, s));
         }
     }
 
@@ -378,6 +391,10 @@ impl AsWorld {
         let mut order: Vec<(usize, usize)> = vec![];
         for (i, r) in self.remotes.iter().enumerate() {
             if r.pos < r.queue.len() && r.tx.is_some() {
+                // the clock only moves while the runtime has nothing to do
+                if matches!(r.queue[r.pos], Step::Wait(_)) && self.subject.runnable() {
+                    continue;
+                }
                 // global index of this remote's next item
                 let mut count = 0;
                 let mut gidx = usize::MAX;
@@ -576,6 +593,9 @@ impl World for AsWorld {
             killed: false,
             crashed_at: None,
             first_result: None,
+            clock_start: None,
+            times: vec![0],
+            completed_step: None,
         }
     }
 
@@ -717,6 +737,7 @@ impl World for AsWorld {
 
     async fn fire(&mut self, code: u32) {
         self.step += 1;
+        self.clock_start.get_or_insert_with(tokio::time::Instant::now);
         self.truth.step.store(self.step, Ordering::SeqCst);
         if let Some(l) = &self.store_log {
             l.step.store(self.step, Ordering::SeqCst);
@@ -759,6 +780,7 @@ impl World for AsWorld {
                         self.fault_before_quiescence = true;
                     }
                     let r = self.subject.result.as_ref().map(|r| r.as_ref().map(|_| ()).map_err(|e| e.to_string()));
+                    self.completed_step = Some(self.step);
                     self.log(format!("subject completed: {:?}", r));
                 }
             }
@@ -925,6 +947,11 @@ impl World for AsWorld {
             }
             _ => {}
         }
+        let start = *self.clock_start.get_or_insert_with(tokio::time::Instant::now);
+        let now_ms = tokio::time::Instant::now().duration_since(start).as_millis() as u64;
+        while self.times.len() <= self.step as usize {
+            self.times.push(now_ms);
+        }
         if self.cfg.crash_at == Some(self.step) && self.subject.alive() && self.second.is_none() {
             self.subject.kill();
             self.crashed_at = Some(self.step);
@@ -985,6 +1012,10 @@ impl World for AsWorld {
             truth2,
             result2,
             crashed_at: self.crashed_at,
+            times: std::mem::take(&mut self.times),
+            completed_step: self.completed_step,
+            alive_at_end: self.subject.alive(),
+            ticks_done: self.ticks_done,
         };
         let violations = (self.checker)(&obs);
         // digest of everything observable
